@@ -164,6 +164,22 @@ def check(ctx):
         texts.append(mutate(rng.fork("m%d" % i), rng.choice(valid_src)))
     nrand = 300 if ctx.tier == "quick" else 3000
     texts += [grammar.rand_grammar(rng.fork("r%d" % i)) for i in range(nrand)]
+    # several grammar sources (`#[grammar_inline]` more than once; U+001E separates the parts in a gen_dump request):
+    # ill-formedness that only shows in the concatenation, and valid grammars cut in two at a rule boundary
+    SEP = "\x1e"
+    texts += ['expr = { sum | atom }\natom = { ASCII_DIGIT+ }\n' + SEP + 'sum = { expr ~ "+" ~ atom }\n',
+              'list = { item* ~ ";" }\n' + SEP + 'item = { "x"? }\n',
+              'a = { b ~ "x" }\n' + SEP + 'b = { a? ~ "y" }\n',
+              'a = { "x" ~ "y" }\n' + SEP + 'WHITESPACE = _{ " "* }\n',
+              'a = { (b | "y") ~ "z" }\n' + SEP + 'b = { "q"? | "r" }\n',
+              'a = { b+ }\n' + SEP + 'b = { "x" }\n' + SEP + 'c = { a ~ b }\n']
+    for i in range(nmut // 5):
+        t = rng.choice(valid_src)
+        lines = t.split("\n")
+        if len(lines) >= 2:
+            k = 1 + rng.fork("sp%d" % i).below(len(lines) - 1)
+            t2 = "\n".join(lines[:k]) + "\n" + SEP + "\n".join(lines[k:])
+            texts.append(mutate(rng.fork("sm%d" % i), t2) if i % 2 else t2)
     gs = [("c%d" % i, t, {}) for i, t in enumerate(texts)]
     res = gendump.dump(gs)
     bad = 0
